@@ -333,6 +333,26 @@ def run(ck, ctx):
     names = sorted((s["rv"]["adt"].split("::")[-1], tuple(s["rv"].get("field_names", []))) for s in agg)
     ck.ob("C18.5", "aggregates", names == [("DebugSymbols", ("line_map", "src_info")), ("ObjectFile", ("block_map", "sym")), ("SymbolTable", ("label_map", "rel_map", "debug_symbols"))],
           "the reader rebuilds %s" % names, dw)
+    # C18.8 writer completeness: the symbol, linker and label-index tables are written from a Vec of ALL entries of the
+    # label map / relocation map (collected, then only sorted).  Collecting them into a keyed collection first (a map by
+    # address, a set) silently drops entries that share a key - two labels on one statement, several .external labels at
+    # the placeholder address 0.
+    sb = F.bodies.get("<asm::encoding::TextFormat as asm::encoding::ObjFileFormat>::serialize::_ser")
+    if ck.anchor("C18.8", "TextFormat::serialize::_ser", sb):
+        bad, n = [], 0
+        for bi, t, c, _ in sb.calls():
+            if (c or "").endswith("Iterator::collect") or "FromIterator" in (c or ""):
+                src = nf.arg_x(sb, t, 0, bi)
+                if "label_iter(" in src or ".label_map" in src or ".rel_map" in src:
+                    n += 1
+                    tgt = (t["func"].get("fn_args") or "").rstrip("]").split(", std::")[-1] if "FromIterator" not in (c or "") else (c or "")
+                    fa = t["func"].get("fn_args") or ""
+                    is_vec = re.search(r", std::vec::Vec<[^\[\]]*>\]$", fa) is not None and "FromIterator" not in (c or "")
+                    if not is_vec:
+                        bad.append("line %s: %s collected into %s" % (t.get("line"), src[:60], fa[-70:]))
+        ck.ob("C18.8", "tables-from-all-entries", n >= 3 and not bad,
+              "%d label/relocation tables are collected into a Vec (every entry kept) before sorting and writing%s" % (n, ("; keyed/deduplicating: " + "; ".join(bad)) if bad else ""),
+              "src/asm/encoding.rs:%s" % sb.line)
     ck.include("C24", ctx, "C18.6", {"C24.1", "C24.2"}, "LineSymbolMap::new (used by the reader) accepts what the producer records")
     ck.include("C25", ctx, "C18.7", {"C25.1"}, "the line table is written from raw_line_span/nl_indices and the source re-indexed by from_string")
     ck.assume("str::escape_default followed by unescaper::unescape is the identity on every string (library behaviour; unescaper 0.1.5 read by hand)")
